@@ -228,7 +228,14 @@ Record pinput := mk_pinput {
   i_stdout : sout;           (* oracle: decoding of those bytes (when within the cap) *)
   i_stderr_len : N;          (* bytes the stub writes to stderr *)
   i_stderr : serr;           (* oracle: decoding of the first min(len, cap) bytes *)
-  i_bound : N }.             (* the call must have returned by this time (ms) *)
+  i_bound : N;               (* the call must have returned by this time (ms) *)
+  (* the request side (stdin of the plugin). NOTHING below reads these three
+     fields: the time by which the call returns, and its result, do not depend
+     on how large the request is, on whether the plugin drains its stdin, or on
+     a descendant keeping the inherited stdin open (Audit.frame_stdin). *)
+  i_request_large : bool;    (* the serialized request exceeds the 64 KiB pipe buffer *)
+  i_reads_stdin : bool;      (* the plugin reads its stdin to EOF *)
+  i_child_holds_stdin : bool (* the descendant of i_desc also holds the stdin read end *) }.
 
 Inductive result :=
 | ROk
